@@ -9,6 +9,7 @@ import (
 func init() {
 	register(&Property{
 		ID:    "C07",
+		Yield: true,
 		Level: "fault_enumeration",
 		Rule: "fault enumeration over teardown scenarios on an in-memory transport: pending inbound backlog {0,1,31,32,33,64,65,66,100,300} lines in one or many segments x outbound backlog {0,1,32,33,64,65,200} produced by a handler " +
 			"or 1..4 user goroutines with the server {reading, not reading, reading in bursts} x handler state {idle, running on a harness gate released before/after the cause, blocked in a send} x cause {Close, EOF, read error, write error, " +
